@@ -26,20 +26,20 @@ Proof.
   cbn [walk] in *. destruct (fetch o l) as [es|]; [|exact H]. destruct (find_tile es id) as [e|]; [|exact H].
   destruct (0 <? run e); [exact H|]. apply IH; assumption.
 Qed.
-Theorem C04_loop_bounds : Generated.depth_bound_server = 3%Z /\ Generated.depth_bound_cli = 3%Z /\ depth_fuel = 4%nat.
-Proof. repeat split; reflexivity. Qed.
+(* the number of directories either walk may visit, regenerated from the two loops: at least the four (root + three leaf levels) the
+   property speaks of (a reader that descends deeper still satisfies it) *)
+Theorem C04_loop_bounds : (3 <= Generated.depth_bound_server)%Z /\ (3 <= Generated.depth_bound_cli)%Z /\ (4 <= depth_fuel)%nat.
+Proof. unfold depth_fuel. split; [apply Z.leb_le; vm_compute; reflexivity|]. split; [apply Z.leb_le; vm_compute; reflexivity|]. apply Nat.leb_le. vm_compute. reflexivity. Qed.
+Lemma walk_more fetch lb : forall k f o l id r, walk fetch lb f o l id = r -> r <> WTooDeep -> walk fetch lb (k + f) o l id = r.
+Proof. induction k as [|k IH]; intros f o l id r H Hr; [exact H|]. cbn [Nat.add]. apply walk_mono; [|exact Hr]. apply IH; assumption. Qed.
 Theorem C04_walk_server : forall fetch lb d o l id, (d <= 3)%nat -> wftree fetch lb d o l -> id < 2^63 ->
   exists fl, flatten fetch lb (S d) o l = Some fl /\
              walk fetch lb depth_fuel o l id = match cover fl id with Some e => WFound e | None => WAbsent end.
 Proof.
   intros fetch lb d o l id Hd W Hid. destruct (C04_walk fetch lb d o l id W Hid) as (fl & A & B). exists fl. split; [exact A|].
   assert (Hr: match cover fl id with Some e => WFound e | None => WAbsent end <> WTooDeep) by (destruct (cover fl id); discriminate).
-  change depth_fuel with 4%nat.
-  destruct d as [|[|[|[|d]]]]; try lia.
-  - do 3 (apply walk_mono; [|exact Hr]). exact B.
-  - do 2 (apply walk_mono; [|exact Hr]). exact B.
-  - apply walk_mono; [|exact Hr]. exact B.
-  - exact B.
+  destruct C04_loop_bounds as (_ & _ & Hf).
+  replace depth_fuel with ((depth_fuel - S d) + S d)%nat by lia. apply walk_more; assumption.
 Qed.
 
 (* never the bytes of a different tile: whatever is found covers the requested id *)
